@@ -1,7 +1,7 @@
 (* Property C13: the library functions that carry Lua names agree with Lua 5.4.
    Only the property theorems, each closed by [exact] of a lemma and followed by Print Assumptions.
    [lua_*] = reference (lstrlib.c / lutf8lib.c / lmathlib.c / lvm.c), [nl_*] = Nelua's port. *)
-From C13 Require Import Model ModelDrv ModelPack ModelUtf8 ProofsIdx ProofsOrd ProofsDrv ProofsPack ProofsUtf8.
+From C13 Require Import Model ModelDrv ModelPack ModelUtf8 ModelPat ProofsIdx ProofsOrd ProofsDrv ProofsPack ProofsUtf8 ProofsPat.
 Local Open Scope Z_scope.
 
 (* ---- (a) index normalisation ---- *)
@@ -181,6 +181,22 @@ Theorem C13_utf8char_eq_lua_partial : forall v b, 0 <= v < two32 -> lua_utf8char
 Proof. exact utf8char_eq_lua_partial. Qed.
 Print Assumptions C13_utf8char_eq_lua_partial.
 
+Theorem C13_utf8relpos_eq_lua : forall pos len, in_i64 pos -> 0 <= len <= maxint ->
+  (0 <= nl_utf8relpos pos len <-> 1 <= lua_u_posrelat pos len) /\
+  (0 <= nl_utf8relpos pos len -> nl_utf8relpos pos len = lua_u_posrelat pos len - 1).
+Proof. exact utf8relpos_eq_lua. Qed.
+Print Assumptions C13_utf8relpos_eq_lua.
+
+Theorem C13_codepoint_eq_lua_partial : forall s i strict c, in_i64 i -> slen s <= maxint ->
+  nl_utf8codepoint s i strict = Val c -> lua_utf8codepoint s i strict = LVal c.
+Proof. exact codepoint_eq_lua_partial. Qed.
+Print Assumptions C13_codepoint_eq_lua_partial.
+
+(* full statement [codepoint_memory_safe] is false today: the decoding loop has no p < #s test *)
+Theorem C13_codepoint_memory_safe_refuted : ~ codepoint_memory_safe.
+Proof. exact codepoint_memory_safe_refuted. Qed.
+Print Assumptions C13_codepoint_memory_safe_refuted.
+
 (* ---- (f) string.pack / unpack of sized integers ---- *)
 Theorem C13_pack_unpack_int_roundtrip : forall a size little, 1 <= size <= 16 -> in_i64 a ->
   (size < 8 -> - 2 ^ (8 * size - 1) <= a < 2 ^ (8 * size - 1)) ->
@@ -212,3 +228,33 @@ Print Assumptions C13_pack_uint_eq_lua_refuted.
 Theorem C13_pack_int_no_fabrication_refuted : ~ pack_int_no_fabrication.
 Proof. exact pack_int_no_fabrication_refuted. Qed.
 Print Assumptions C13_pack_int_no_fabrication_refuted.
+
+(* ---- (h) the pattern matcher itself ---- *)
+(* full statement [match_eq_lua] (same result on every subject and pattern) is false today: smaller
+   recursion budget, and %f on the empty subject reads outside the subject *)
+Theorem C13_match_eq_lua_refuted : ~ match_eq_lua.
+Proof. exact match_eq_lua_refuted. Qed.
+Print Assumptions C13_match_eq_lua_refuted.
+
+(* wherever the port's matcher neither runs out of its budget nor leaves the subject, it returns what
+   Lua's matcher returns: end position, captures, failure, or malformed-pattern error *)
+Theorem C13_match_eq_lua_partial : forall src pat p0 s r, is_bytes src = true ->
+  run_match nl_cfg src pat p0 s = r -> good r -> run_match lua_cfg src pat p0 s = r.
+Proof. exact match_eq_lua_partial. Qed.
+Print Assumptions C13_match_eq_lua_partial.
+
+(* a match that starts inside the subject ends at or after its start and inside the subject *)
+Theorem C13_match_range : forall cfg src pat p0 pos e c,
+  pat_matcher cfg src pat p0 pos = Some (e, c) -> pos <= e <= slen src.
+Proof. exact pat_matcher_range. Qed.
+Print Assumptions C13_match_range.
+
+(* string.gsub on a real pattern (matcher + driver composed): equal to Lua's gsub whenever the port's
+   matcher stays within its budget and within memory at every position of the subject *)
+Theorem C13_gsub_pattern_eq_lua_partial : forall src pat repl anchor maxn p0, is_bytes src = true ->
+  (forall pos, 0 <= pos <= slen src -> good (run_match nl_cfg src pat p0 pos)) ->
+  nl_gsub (pat_matcher nl_cfg src pat p0) src repl anchor maxn =
+  lua_gsub (pat_matcher lua_cfg src pat p0) src repl anchor maxn /\
+  lua_gsub (pat_matcher lua_cfg src pat p0) src repl anchor maxn <> None.
+Proof. exact gsub_pattern_eq_lua. Qed.
+Print Assumptions C13_gsub_pattern_eq_lua_partial.
